@@ -409,9 +409,9 @@ fn replay<C: Check>(check: &C, path: &Path) -> i32 {
         }
     };
     let mut obs = Obs::default();
-    let mut vs = match catch_unwind(AssertUnwindSafe(|| check.execute(&sc, &mut obs))) {
-        Ok(v) => v,
-        Err(_) => {
+    let mut vs = match execute_guarded(check, &sc, &mut obs) {
+        Guarded::Done(v) => v,
+        _ => {
             eprintln!("HARNESS-ERROR: replay panicked in the harness");
             return 2;
         }
@@ -467,12 +467,12 @@ fn execute_history<C: Check>(check: &C, seed: u64, tier: Tier, runs: &[u64]) -> 
                 let mut obs = Obs::default();
                 let r = catch_unwind(AssertUnwindSafe(|| {
                     let mut g = Xo::derive(seed, check.id(), 0, i);
-                    let sc = check.generate(&mut g, tier, i);
-                    check.execute(&sc, &mut obs)
+                    check.generate(&mut g, tier, i)
                 }));
-                match r {
-                    Ok(vs) => last = vs,
-                    Err(_) => return None,
+                match r.map(|sc| execute_guarded(check, &sc, &mut obs)) {
+                    Ok(Guarded::Done(vs)) => last = vs,
+                    Ok(Guarded::StarvedAdversarial) => last = Vec::new(),
+                    _ => return None,
                 }
             }
             Some(last)
@@ -720,11 +720,20 @@ fn run_tier<C: Check>(check: &C, tier: Tier) -> i32 {
                         beats[wi].0.store(i + 1, Ordering::Relaxed);
                         let r = catch_unwind(AssertUnwindSafe(|| {
                             let mut g = Xo::derive(seed, check.id(), 0, i);
-                            let sc = check.generate(&mut g, tier, i);
+                            check.generate(&mut g, tier, i)
+                        }))
+                        .and_then(|sc| {
                             w.obs.fingerprint = None;
-                            let vs = check.execute(&sc, &mut w.obs);
-                            (sc, vs)
-                        }));
+                            match execute_guarded(check, &sc, &mut w.obs) {
+                                Guarded::Done(vs) => Ok((sc, vs)),
+                                Guarded::StarvedAdversarial => {
+                                    // inconclusive: an adversarial stream may starve a legitimate rejection sampler
+                                    w.obs.hit("probe.run-starved-under-adversarial-stream");
+                                    Ok((sc, Vec::new()))
+                                }
+                                Guarded::HarnessPanic(p) => Err(p),
+                            }
+                        });
                         match r {
                             Ok((sc, vs)) => {
                                 if let Some(fp) = w.obs.fingerprint {
@@ -753,7 +762,7 @@ fn run_tier<C: Check>(check: &C, tier: Tier) -> i32 {
                             }
                             Err(payload) => {
                                 let what = if payload.downcast_ref::<Starvation>().is_some() {
-                                    format!("rng starvation in run {i} (a degenerate stream starved a rejection sampler)")
+                                    format!("rng starvation while GENERATING run {i} (the scenario generator exceeded the draw cap)")
                                 } else {
                                     format!(
                                         "harness panic in run {i}: {}",
@@ -1220,9 +1229,39 @@ fn sanitize(s: &str) -> String {
     out
 }
 
+enum Guarded {
+    Done(Vec<Violation>),
+    StarvedAdversarial,
+    HarnessPanic(Box<dyn std::any::Any + Send>),
+}
+
+/// Execute a scenario. An operation that hits the draw cap of a purely seeded stream does not terminate (or
+/// consumes randomness without bound): that is a violation of "returns", reported like any other.
+fn execute_guarded<C: Check>(check: &C, sc: &C::Scenario, obs: &mut Obs) -> Guarded {
+    match catch_unwind(AssertUnwindSafe(|| check.execute(sc, obs))) {
+        Ok(vs) => Guarded::Done(vs),
+        Err(payload) => match payload.downcast_ref::<Starvation>() {
+            Some(st) if !st.adversarial => Guarded::Done(vec![Violation::new(
+                "returns",
+                "does-not-return:unbounded-random-draws".to_string(),
+                format!(
+                    "an operation under test drew more than {} random words from a purely seeded stream without returning \
+                     (no boundary word had been injected): it does not terminate, or consumes randomness without bound",
+                    crate::simrng::DEFAULT_DRAW_CAP
+                ),
+            )]),
+            Some(_) => Guarded::StarvedAdversarial,
+            None => Guarded::HarnessPanic(payload),
+        },
+    }
+}
+
 fn quiet_execute<C: Check>(check: &C, sc: &C::Scenario) -> Vec<Violation> {
     let mut obs = Obs::default();
-    catch_unwind(AssertUnwindSafe(|| check.execute(sc, &mut obs))).unwrap_or_default()
+    match execute_guarded(check, sc, &mut obs) {
+        Guarded::Done(vs) => vs,
+        _ => Vec::new(),
+    }
 }
 
 fn minimise<C: Check>(check: &C, sc: &C::Scenario, v: &Violation) -> (C::Scenario, Violation, u64) {
